@@ -31,7 +31,12 @@ constexpr bool can_scale_without_overflow(Magnitude<BPs...> m, Rep value) {
         (void)value;
         return true;
     } else {
-        return std::numeric_limits<Rep>::max() / get_value<Rep>(m) >= value;
+        // A factor which `Rep` cannot even represent would overflow any nonzero value.  (Note that
+        // asking for `get_value<Rep>(m)` in this case would be a hard compiler error.)
+        constexpr auto factor = detail::get_value_result<Rep>(Magnitude<BPs...>{});
+        return (factor.outcome == detail::MagRepresentationOutcome::OK)
+                   ? (std::numeric_limits<Rep>::max() / factor.value >= value)
+                   : (value == Rep{0});
     }
 }
 
